@@ -79,7 +79,16 @@ def session_history(rnd, first_id, nev, focus=False):
     if rnd.random() < 0.5:          # a second class with the same number of fields but other names (template cache)
         twin = dict(types[0], name=types[0]["name"] + "tw",
                     fields=[dict(f, name=f["name"] + "x") for f in types[0]["fields"]])
-        if not A.has_kind(twin, {"arr"}) or True:
+        # a length that names one of the renamed fields (or a field that shadowed a constant) would mean something else in the twin
+        names = {f["name"] for f in types[0]["fields"]}
+
+        def names_fields(t):
+            if t["k"] == "arr":
+                ln = t["len"]
+                return ("e" in ln and bool(A.expr_refs(ln["e"], names))) or names_fields(t["elem"])
+            return False
+
+        if not any(names_fields(f["type"]) for f in types[0]["fields"]) and not (names & set(g.consts)):
             types.append(twin)
     r = A.Renderer()
     for t in types:
